@@ -625,7 +625,7 @@ def leaves_spec(cells, key, seen=()):
 
 
 def tie_fill(res, tier, rng):
-    n = 250 if tier == 'quick' else 2500
+    n = 160 if tier == 'quick' else 2500
     cases, meta = [], []
     for i in range(n):
         cells = c09_gen.gen_cells(rng, malformed=i % 10 == 9)
@@ -773,7 +773,7 @@ def gen_vols(rng, cells):
 
 
 def tie_geomcomp(res, tier, rng, real):
-    n = 250 if tier == 'quick' else 2500
+    n = 160 if tier == 'quick' else 2500
     cases, meta = [], []
     for _ in range(n):
         cells = c09_gen.gen_cells(rng)
@@ -872,7 +872,7 @@ def oracle_comp(cells, out):
 
 
 def tie_comp(res, tier, rng, real):
-    n = 250 if tier == 'quick' else 2500
+    n = 160 if tier == 'quick' else 2500
     cases, meta = [], []
     with impl.mip_parser(COMP_DECK) as parser:
         for _ in range(n):
